@@ -35,9 +35,10 @@ func init() {
 			"Added after blind round 5: the retry wrapper's decision table (exhausted retries report an error). " +
 			"Added after blind round 6: the buffer-view rule of C03; the memtable's snapshot bound nextSeqNum is advanced by Put and Delete alike (cross-listed from C18: a delete-only commit must be visible to later scans). " +
 			"Added after blind round 7: every storage access of a transaction's Get/NewIterator/NewRangeIterator happens with TransactionImpl.mu held (Commit/Rollback wait for reads in flight); the scan iterator is built from every memtable and every SSTable it is given (whole-slice walks, no skipped iteration). " +
-			"Added after blind round 8: BufferIterator.Seek does not read the iterator's old position; the bounds decision table cross-listed from C05.",
+			"Added after blind round 8: BufferIterator.Seek does not read the iterator's old position; the bounds decision table cross-listed from C05. " +
+			"Added after blind round 9: the transaction buffer's iterator, like every source below the merge, positions without looking at deletion markers (its tombstone is what hides the committed version).",
 		NotDecided: "equivalence of all interleavings to a serial order (needs histories); non-transactional writers are excluded by the property itself.",
-		Rules:      []func(*Ctx, *Reporter){ruleTxAcquire, ruleTxRelease, ruleTxLockWriters, ruleTxApplyInside, ruleTxOwnWrites, ruleTxFinishOnce, ruleTxOpsBuffered, ruleStStamps, ruleEmptyNotDeleted, subRules(ruleStEffectOnce, "retry-only-on-rotating"), ruleBufferViewsFollowMap, subRules(ruleMemVisibility, "next-seq-guard"), ruleTxReadsUnderTxLock, ruleScanSourcesComplete, ruleBufferSeekStateless, ruleBounds},
+		Rules:      []func(*Ctx, *Reporter){ruleTxAcquire, ruleTxRelease, ruleTxLockWriters, ruleTxApplyInside, ruleTxOwnWrites, ruleTxFinishOnce, ruleTxOpsBuffered, ruleStStamps, ruleEmptyNotDeleted, subRules(ruleStEffectOnce, "retry-only-on-rotating"), ruleBufferViewsFollowMap, subRules(ruleMemVisibility, "next-seq-guard"), ruleTxReadsUnderTxLock, ruleScanSourcesComplete, ruleBufferSeekStateless, ruleBounds, ruleSourcesDoNotHideTombstones},
 	})
 }
 
